@@ -257,3 +257,88 @@ macro_rules! c03_u_semi {
         });
     };
 }
+
+/// Knuth D with a CONCRETE multi-digit divisor and a fully symbolic dividend: the divisor-dependent parts of the algorithm
+/// (normalisation shift, q-hat estimate, multiply-subtract) become operations with constants, which the solver decides for all
+/// 2^BITS dividends at widths where two symbolic operands do not finish; every quotient digit position (incl. the q-hat
+/// corrections and the add-back step at a non-lowest position) is exercised by some dividend.
+#[macro_export]
+macro_rules! c03_u_cdiv {
+    ($name:ident, $unw:expr, $U:ty, $D:ty, $N:expr, $X:ty, [$($dv:expr),*]) => {
+        $crate::harness!($name, $unw, {
+            use $crate::util::*;
+            let (a, ad) = <$U as BN<$D, $N>>::any();
+            let bd: [$D; $N] = [$($dv),*];
+            let b = <$U as BN<$D, $N>>::mk(bd);
+            let (n, d) = (dval_u128(&ad) as $X, dval_u128(&bd) as $X);
+            let q = dval_u128(&(a / b).dg()) as $X;
+            let r = dval_u128(&(a % b).dg()) as $X;
+            assert!(r < d, "remainder below the divisor");
+            assert!(q <= n && q * d + r == n, "n == q * d + r");
+            $crate::reach!(q > <$D as Dig>::MAXD.to_u64() as $X && r != 0, "multi-digit quotient");
+        });
+    };
+}
+
+/// q * d + r == n in exact limb arithmetic (u64 limbs, u128 partial products), for widths without a primitive oracle.
+/// `q`, `d`, `r`, `n` are little-endian u64 limb arrays of length L; returns false if the product does not fit L limbs.
+pub fn limb_mul_add_eq<const L: usize>(q: &[u64; L], d: &[u64; L], r: &[u64; L], n: &[u64; L]) -> bool {
+    let mut acc = [0u64; L];
+    let mut i = 0;
+    while i < L {
+        let mut carry: u128 = 0;
+        let mut j = 0;
+        while j < L {
+            if i + j < L {
+                let t = (q[i] as u128) * (d[j] as u128) + acc[i + j] as u128 + carry;
+                acc[i + j] = t as u64;
+                carry = t >> 64;
+            } else if q[i] != 0 && d[j] != 0 {
+                return false;
+            }
+            j += 1;
+        }
+        if carry != 0 { return false; }
+        i += 1;
+    }
+    // + r
+    let mut c = false;
+    let mut k = 0;
+    while k < L {
+        let (s, c1) = acc[k].overflowing_add(r[k]);
+        let (s, c2) = s.overflowing_add(c as u64);
+        acc[k] = s;
+        c = c1 || c2;
+        k += 1;
+    }
+    if c { return false; }
+    let mut k = 0;
+    let mut eq = true;
+    while k < L { eq &= acc[k] == n[k]; k += 1; }
+    eq
+}
+pub fn limb_lt<const L: usize>(a: &[u64; L], b: &[u64; L]) -> bool {
+    let mut k = L;
+    let mut lt = false;
+    let mut decided = false;
+    while k > 0 { k -= 1; if !decided && a[k] != b[k] { lt = a[k] < b[k]; decided = true; } }
+    lt
+}
+
+/// the same as c03_u_cdiv for u64 digits beyond 128 bits (limb oracle)
+#[macro_export]
+macro_rules! c03_u_cdiv_wide {
+    ($name:ident, $unw:expr, $U:ty, $N:expr, [$($dv:expr),*]) => {
+        $crate::harness!($name, $unw, {
+            use $crate::util::*;
+            let (a, ad) = <$U as BN<u64, $N>>::any();
+            let bd: [u64; $N] = [$($dv),*];
+            let b = <$U as BN<u64, $N>>::mk(bd);
+            let q = (a / b).dg();
+            let r = (a % b).dg();
+            assert!($crate::c03::limb_lt(&r, &bd), "remainder below the divisor");
+            assert!($crate::c03::limb_mul_add_eq(&q, &bd, &r, &ad), "n == q * d + r");
+            $crate::reach!(q[1] != 0 && !dzero(&r), "multi-digit quotient");
+        });
+    };
+}
